@@ -54,7 +54,7 @@ func (c20) ID() string { return "C20" }
 
 func (c20) Plan(tier string) fw.Plan {
 	p := fw.Plan{
-		Batches: 8, Cases: 10, Race: true, TimeoutSec: 1500, Level: "exploration",
+		Batches: 8, Cases: 16, Race: true, TimeoutSec: 1500, Level: "exploration",
 		Rule:        "race-detector build. One case = one pool of shared objects (basicnode trees; bindnode typed and representation views of wrapped Go values with explicit and inferred schemas; generated-code typed and representation nodes; decoded nodes; subset matches incl. stream-backed bytes; compiled selectors; type systems and typed prototypes; the default multicodec registry; a LinkSystem over a pre-filled read-only memstore; one shared *traversal.Config with nil defaults) whose per-operation result digests are computed sequentially first; then G ∈ {4,16,64} goroutines each run a seeded sequence of read-only operations on the SHARED objects (full read-out, DeepEqual, Copy into a fresh builder, encode with each codec, WalkAdv/WalkMatching with the shared selector and config, Load/LoadRaw/ComputeLink through the shared link system, bindnode.Wrap/Prototype with explicit and (already inferred) inferred schemas, NewBuilder from shared prototypes then build) under varying GOMAXPROCS; every goroutine's digests must equal the sequential ones; race reports (halt_on_error=0, log files) are de-duplicated by the innermost go-ipld-prime frames of both accesses and each distinct one is a violation; a fatal 'concurrent map' death is a violation. An atomic table counts which operation kinds were in flight on the same object at the same time. Non-trivial: a run with ≥20 distinct overlapping operation pairs; distinct by pool hash.",
 		Assumptions: []string{"the race detector only reports races that occur in an execution it watches", "first-time schema inference for a new Go type while other goroutines use inferred-schema nodes is probed separately (known finding, see known_findings.json)"},
 		MinEvents:   []string{"concurrent_ops", "distinct_overlapping_pairs", "digest_comparisons", "op:readout", "op:walk", "op:load", "op:bind", "op:encode", "op:build", "goroutines_started"},
